@@ -199,6 +199,23 @@ fn check(c: &Case, st: &mut Stats) -> Result<(), String> {
     if got.as_deref() != Some(&blk_bytes[..]) {
         return Err(format!("block decoder for block {zi} does not return the zero-padded block bytes"));
     }
+    // (d) the same block from one batch with erased source symbols and enough repair symbols to
+    // enter the decoder's binary-only fast path (>= K + H distinct symbols in one call)
+    let pr = rf::params(k as u32);
+    let mut batch = enc.get_block_encoders()[zi].source_packets();
+    let erase = 1 + rng.below(k.min(3) as u64) as usize;
+    for _ in 0..erase {
+        let victim = rng.below(batch.len() as u64) as usize;
+        batch.remove(victim);
+    }
+    batch.extend(enc.get_block_encoders()[zi].repair_packets(rng.below(300) as u32, erase as u32 + pr.h + 3));
+    rng.shuffle(&mut batch);
+    let mut bd2 = SourceBlockDecoder::new(zi as u8, &cfg, (k * t) as u64);
+    match bd2.decode(batch) {
+        Some(bytes) if bytes == blk_bytes => st.class("batch decode with overhead >= H"),
+        Some(_) => return Err(format!("F={f} T={t} Z={} N={} Al={}: block decoder for block {zi}, fed one batch with {erase} source symbols erased and H+3 extra repair symbols, does not return the block in the RFC layout", c.z, c.n, c.al)),
+        None => st.class("batch decode undecodable (counted, not judged)"),
+    }
     Ok(())
 }
 
@@ -229,7 +246,7 @@ fn signature(_: &Case, msg: &str) -> String {
 }
 
 pub fn run(ctx: &Ctx, rep: &mut Report) {
-    rep.rule = "generated (F, T, Z, N, Al, data): Al in {1,2,3,4,8}, T/Al in 1..=24, N in 1..=T/Al, Kt in 1..=90, Z in 1..=min(Kt,12), F=(Kt-1)*T+r, biased to Kt mod Z != 0 and (T/Al) mod N != 0; data position-coded or random. Plus an exhaustive sweep of all (Kt <= 8 quick / 20 thorough, Z <= Kt, T/Al <= 5 quick / 8 thorough, N <= T/Al, Al in {1,4}). Oracle: reference layout by index formula (Partition, block/sub-block/symbol offsets) for every source packet's (SBN, ESI, payload); partition() and calculate_block_offsets() against the reference; then the decoder is fed all source packets, an erasure pattern + repair packets, and one block decoder, and must return the object. Non-trivial = N>1 with TL != TS, or Z>1 with KL != KS, or F mod T != 0; distinct by (F,T,Z,N,Al).".into();
+    rep.rule = "generated (F, T, Z, N, Al, data): Al in {1,2,3,4,8}, T/Al in 1..=24, N in 1..=T/Al, Kt in 1..=90, Z in 1..=min(Kt,12), F=(Kt-1)*T+r, biased to Kt mod Z != 0 and (T/Al) mod N != 0; data position-coded or random. Plus an exhaustive sweep of all (Kt <= 8 quick / 20 thorough, Z <= Kt, T/Al <= 5 quick / 8 thorough, N <= T/Al, Al in {1,4}). Oracle: reference layout by index formula (Partition, block/sub-block/symbol offsets) for every source packet's (SBN, ESI, payload); partition() and calculate_block_offsets() against the reference; then the decoder is fed all source packets, an erasure pattern + repair packets, one block decoder with all source packets, and one block decoder with a single batch (erasures + H+3 extra repair symbols, which enters the binary-only fast path), and must return the object / block. Non-trivial = N>1 with TL != TS, or Z>1 with KL != KS, or F mod T != 0; distinct by (F,T,Z,N,Al).".into();
     let n = ctx.tier.pick(200_000u64, 2_000_000);
     rep.absorb("generated", run_sharded("C05", "generated", ctx.seed, n, 32, strategy, check, to_json, signature));
     // exhaustive small sweep
